@@ -79,7 +79,7 @@ def permute(rng, doc):
             # a mapping that addresses list elements by index is order-sensitive by nature when two keys can
             # alias one element (negative indices) or an element is removed (indices shift): leave those alone
             ints = [k for k, _ in n['items'] if isinstance(k, int)]
-            if ints and (min(ints) < 0 or any(_has_remove_idiom(c) for _, c in n['items'])):
+            if ints and min(ints) < 0:
                 continue
             rng.shuffle(n['items'])
     return d
